@@ -252,9 +252,13 @@ class NeedEval:
         self.memo = {}
         self.active = set()
         self.unmeasured = set()
+        self.blob_sizes = {}
 
     def elem_size(self, tstr):
         t = (tstr or "").replace("const ", "").replace("volatile ", "").replace("register ", "").strip()
+        m = re.match(r"^(.*?)\s*\[\d*\]$", t)
+        if m:
+            t = m.group(1).strip() + " *"      # an array used as a pointer to its first element
         if not t.endswith("*"):
             return None
         base = t[:-1].strip()
@@ -274,9 +278,25 @@ class NeedEval:
                 return self.prog.records[td["rec"]].get("size")
         return None
 
-    def need(self, f, scal, atoms):
-        """scal: param name -> int ; atoms: access path (relative to f's params) -> int.  returns bytes"""
-        key = (f.name, f.unit if f.static else None, tuple(sorted(scal.items())), tuple(sorted(atoms.items())))
+    def record_of(self, tstr):
+        """record description for a pointer-to-struct (or array-of-struct) type string, or None"""
+        t = (tstr or "").replace("const ", "").replace("volatile ", "").replace("register ", "").strip()
+        t = re.sub(r"\[\d*\]$", "", t).strip()
+        if t.endswith("*"):
+            t = t[:-1].strip()
+        t = t.replace("struct ", "").strip()
+        r = self.prog.records.get(t)
+        if r is None:
+            td = self.prog.typedefs.get(t)
+            if td is not None and td.get("rec"):
+                r = self.prog.records.get(td["rec"])
+        return r
+
+    def need(self, f, scal, atoms, base="stack"):
+        """scal: param name -> int ; atoms: access path (relative to f's params) -> int.  returns bytes used beyond the
+        base pointer: the parameter `stack` (scratch memory), the parameter `state`, or ("blob") the block the function
+        itself obtains from blobCreate"""
+        key = (f.name, f.unit if f.static else None, tuple(sorted(scal.items())), tuple(sorted(atoms.items())), base)
         if key in self.memo:
             return self.memo[key]
         if key in self.active:
@@ -285,8 +305,10 @@ class NeedEval:
             raise Undecided("call chain too deep at %s" % f.name)
         self.active.add(key)
         try:
-            w = Walker(self, f, scal, atoms)
+            w = Walker(self, f, scal, atoms, base)
             r = w.run()
+            if base == "blob":
+                self.blob_sizes[key] = w.blob_size
         finally:
             self.active.discard(key)
         self.memo[key] = r
@@ -294,8 +316,10 @@ class NeedEval:
 
 
 class Walker:
-    def __init__(self, ne, f, scal, atoms):
+    def __init__(self, ne, f, scal, atoms, base="stack"):
         self.ne, self.f = ne, f
+        self.base = base
+        self.blob_size = None      # base == "blob": (requested size | None, reason) of the first blobCreate
         self.prog = ne.prog
         self.atoms = dict(atoms)
         self.ints = {}       # var id -> int
@@ -307,7 +331,7 @@ class Walker:
         self.stack_id = None
         self.imax = {}       # induction variable id -> greatest value inside the loop being walked
         for p in f.params:
-            if p["n"] == "stack" and p.get("p"):
+            if p["n"] == base and p.get("p") and base in ("stack", "state"):
                 self.stack_id = p["id"]
                 self.ptrs[p["id"]] = 0
             elif not p.get("p"):
@@ -429,6 +453,15 @@ class Walker:
             return None
         if k == "Bin" and e["op"] == "=":
             return self.pval(e["y"])
+        if k == "Member" and e.get("p") and "[" in (e.get("t") or ""):
+            # an array field of a structure that lies in the tracked memory: st->block, st->stack (flexible)
+            o = self.member_off(e)
+            if o is not None:
+                return o
+        if k == "Un" and e["op"] == "&" and strip(e["e"]).get("k") == "Member":
+            o = self.member_off(strip(e["e"]))
+            if o is not None:
+                return o
         if k == "Un" and e["op"] == "&" and strip(e["e"]).get("k") == "Index":
             ix = strip(e["e"])
             pb = self.pval(ix["b"])
@@ -569,6 +602,15 @@ class Walker:
             r = strip(rhs)
             while r.get("k") == "Bin" and r["op"] == "=":
                 r = strip(r["y"])
+            if self.base == "blob" and r.get("k") == "Call" and r.get("callee") == "blobCreate" and self.blob_size is None:
+                try:
+                    self.blob_size = (self.ival(r["a"][0]), None)
+                except Undecided as u:
+                    self.blob_size = (None, str(u))
+                self.stack_id = vid
+                self.ptrs[vid] = 0
+                self.paths.pop(vid, None)
+                return
             try:
                 pv = self.pval(rhs)
             except Undecided as u:
@@ -601,6 +643,64 @@ class Walker:
     def _rooted_at_stack(self, e):
         r = ir.root_ref(e)
         return r is not None and r.get("id") in self.ptrs
+
+    def member_off(self, m):
+        """byte offset (from the base) of the member designated by m = X->f / X.f when X lies in the tracked memory"""
+        b = m["b"]
+        if m.get("arrow"):
+            pb = self.pval(b)
+            rec = self.ne.record_of(strip(b).get("t")) if pb is not None else None
+            # a cast (T*)state: the type is on the cast node
+            if pb is not None and rec is None:
+                n_ = b
+                while isinstance(n_, dict) and n_.get("k") in ("Cast", "Paren"):
+                    rec = self.ne.record_of(n_.get("t"))
+                    if rec is not None:
+                        break
+                    n_ = n_.get("e")
+        else:
+            sb = strip(b)
+            if sb.get("k") == "Member":
+                pb = self.member_off(sb)
+            elif sb.get("k") == "Index":
+                pb0 = self.pval(sb["b"])
+                try:
+                    pb = None if pb0 is None else pb0 + self.ival(sb["i"]) * self._esize(sb["b"])
+                except Undecided:
+                    pb = None
+            elif sb.get("k") == "Un" and sb["op"] == "*":
+                pb = self.pval(sb["e"])
+            else:
+                pb = None
+            rec = self.ne.record_of(sb.get("t")) if pb is not None else None
+        if pb is None or rec is None:
+            return None
+        for fl in rec["fields"]:
+            if fl["n"] == m["f"]:
+                return pb + fl["off"] // 8
+        return None
+
+    def touch_members(self, e):
+        """X->f with X in the tracked memory: the whole structure X points to is in use"""
+        for n in walk(e):
+            if n.get("k") != "Member" or not n.get("arrow"):
+                continue
+            try:
+                pb = self.pval(n["b"])
+            except Undecided:
+                pb = None
+            if pb is None:
+                continue
+            rec = self.ne.record_of(strip(n["b"]).get("t"))
+            if rec is None:
+                n_ = n["b"]
+                while isinstance(n_, dict) and n_.get("k") in ("Cast", "Paren"):
+                    rec = self.ne.record_of(n_.get("t"))
+                    if rec is not None:
+                        break
+                    n_ = n_.get("e")
+            if rec is not None and rec.get("size"):
+                self.need = max(self.need, pb + rec["size"])
 
     def touch(self, e):
         """direct accesses p[i] through pointers into the scratch stack count like carving: offset + (i + 1) elements"""
@@ -637,6 +737,8 @@ class Walker:
             return
         if top:
             self.touch(e)
+            if self.base != "stack":
+                self.touch_members(e)
         k = e.get("k")
         if k == "Bin" and e["op"] == ",":
             self.expr(e["x"], False)
@@ -696,6 +798,11 @@ class Walker:
             # call through a table of function pointers (_mul_procs[n](c, a, b, stack)): the entries are the targets
             targets = self.table_targets(c["fn"])
             if targets is None:
+                fn_ = strip(c["fn"])
+                if fn_.get("k") == "Un" and fn_["op"] == "*":
+                    fn_ = strip(fn_["e"])
+                if fn_.get("k") == "Ref" and fn_.get("rk") == "param":
+                    return      # a caller-supplied callback (gen_i, read_i ..) gets a data buffer, like a libc routine
                 if any(self.pval(a) is not None for a in c["a"]):
                     raise Undecided("call through `%s` receives scratch memory in %s and its target is unknown" % (
                         show(c["fn"])[:30], self.f.name))
@@ -754,6 +861,12 @@ class Walker:
                             self.atoms["%s->%s" % (objp, an)] = val
                 except Undecided:
                     pass
+        cbase = "stack"
+        if not sidx or off_of(sidx[0]) is None:
+            # the callee's state lies in the tracked memory (beltMACStart(state, ..), beltHashStart(st->hash_state ..))
+            stidx = [i for i, p in enumerate(g.params) if p["n"] == "state" and p.get("p")]
+            if self.base != "stack" and stidx and off_of(stidx[0]) is not None:
+                sidx, cbase = stidx, "state"
         if not sidx:
             return
         si = sidx[0]
@@ -778,7 +891,7 @@ class Walker:
                     scal[p["n"]] = self.ival(a)
                 except Undecided:
                     pass
-        sub = self.ne.need(g, scal, atoms)
+        sub = self.ne.need(g, scal, atoms, cbase)
         self.need = max(self.need, so + sub)
         self.trace.append((c.get("l"), cn, so, sub, dict(scal)))
 
